@@ -28,6 +28,18 @@ Missing(t) == {x \in (1..Len(t.tags)) \X (PosTags \cap AllFeatureTags(t)) \X All
                  /\ ActsOn(t, T, t.tags[k].script)
                  /\ FeatureTags(t.F, t.tags[k].tag, lang) \cap {"kern", "dist"} # {}
                  /\ T \notin FeatureTags(t.F, t.tags[k].tag, lang)}
+\* the same for generated kerning itself: a kern / dist lookup whose first-glyph coverage holds a glyph that belongs to the
+\* script ALONE positions that script's text, so every language system of the script that exposes a generated positioning
+\* feature exposes that kerning feature too
+FirstGlyphs(lk) == UNION {IF st.k \in {"pp1", "pp2"} THEN Rng(st.cov) ELSE {} : st \in Rng(lk.subs)}
+KernActsOn(t, T, script) == \E li \in LookupsOfTag(t, T) : \E g \in FirstGlyphs(t.F.gpos.lookups[li + 1]) : script \in Rng(G(t, g).single)
+MissingKern(t) == {x \in (1..Len(t.tags)) \X ({"kern", "dist"} \cap AllFeatureTags(t)) \X AllLangsOf(t) :
+                     LET k == x[1]  T == x[2]  lang == x[3] IN
+                     /\ t.tags[k].tag # "DFLT"
+                     /\ lang \in Languages(t.F, t.tags[k].tag)
+                     /\ KernActsOn(t, T, t.tags[k].script)
+                     /\ FeatureTags(t.F, t.tags[k].tag, lang) \cap PosTags # {}
+                     /\ T \notin FeatureTags(t.F, t.tags[k].tag, lang)}
 DeclaredPair(t, tag, lang) == \E j \in 1..Len(t.declaredPairs) : t.declaredPairs[j][1] = tag /\ t.declaredPairs[j][2] = lang
 \* all language systems of one script expose the same generated positioning features (kerning included)
 GenTags == PosTags \cup {"kern", "dist"}
@@ -42,9 +54,11 @@ Known(t, x) == /\ ~DeclaredPair(t, t.tags[x[1]].tag, x[3])
 Init == i = 1
 Next == /\ i <= Len(Traces)
         /\ LET t == Traces[i]  bad == {x \in Missing(t) : ~Known(t, x)}  kn == {x \in Missing(t) : Known(t, x)}
+               badk == {x \in MissingKern(t) : DeclaredPair(t, t.tags[x[1]].tag, x[3])}
            IN PrintT(<<"VERDICT", t.tid, IF bad # {} THEN "positioning-reachable-where-kerning-is"
+                                        ELSE IF badk # {} THEN "kerning-reachable-where-it-acts"
                                         ELSE IF ~LangsAgree(t) THEN "language-systems-of-a-script-agree" ELSE "none", "none",
-                       Cardinality(kn), ToString(bad)>>)
+                       Cardinality(kn), ToString(IF bad # {} THEN bad ELSE badk)>>)
         /\ i' = i + 1
 Spec == Init /\ [][Next]_i
 =============================================================================
